@@ -960,7 +960,10 @@ impl TwoFloat {
             //          with another lookup table
 
             // x = y/2 + z
-            let y = libm::round(2.0 * self.hi());
+            // (rounding the full value, not only the high word: otherwise a
+            // low word pointing away from the rounded half-integer makes
+            // |z| exceed 1/4)
+            let y = (2.0 * self).round().hi();
             let z = self - y / 2.0;
 
             // exp(z + y/2) = (1 + expm1(z)) exp(1/2)^y
